@@ -115,11 +115,14 @@ def preset(pid, tier):
     if pid in ('C06', 'C12'):
         props = {'C06': ['P_C06'], 'C12': ['P_C12']}[pid]
         invs = {'C06': [], 'C12': ['I_C12']}[pid]
-        mcc = pn(SignerSets='all' if pid == 'C06' else 'exact', MaxDeliver=4 if q else 5, MaxHeight=2, TokenIds=S(['i1']) if pid == 'C06' else S(['i1', 'i2']),
+        mcc = pn(SignerSets='all' if pid == 'C06' else 'exact', MaxDeliver=(5 if pid == 'C06' else 6) if q else 7, MaxHeight=2, TokenIds=S(['i1']) if pid == 'C06' else S(['i1', 'i2']),
                  ViewTokens=S(['i1']) if pid == 'C06' else S(['i1', 'i2']))
-        simc = pn(Accts=S(['a1', 'a2', 'a3', 'a4']), DenomIds=S(['n1', 'n2', 'n3']), TokenIds=S(['i1', 'i2', 'i3']), ViewDenoms=S(['n1', 'n2', 'n3']), ViewTokens=S(['i1', 'i2', 'i3']),
-                  DNames=S(['x', 'y']), SignerSets='all', ExecOn=True, Kinds=PN_KINDS | S(['authz.Grant']), MaxDeliver=40, MaxHeight=6, NextKinds=ALL_NEXT, FailKeep=10)
-        return dict(mc=mcc, props=props, invs=invs, sims=[sim(simc, 150 if q else 3000, 40)], mc_timeout=2400)
+        simc = pn(Accts=S(['a1', 'a2', 'a3', 'a4']), DenomIds=S(['n1', 'n2', 'n3', 'nz']), TokenIds=S(['i1', 'i2', 'i3', 'iz']), ViewDenoms=S(['n1', 'n2', 'n3', 'nz']),
+                  ViewTokens=S(['i1', 'i2', 'i3', 'iz']),
+                  DNames=S(['x', 'y']), SignerSets='all', ExecOn=True, Kinds=PN_KINDS | S(['authz.Grant']), MaxDeliver=40, MaxHeight=6, NextKinds=ALL_NEXT, FailKeep=30)
+        tourc = pn(Accts=S(['a1', 'a2', 'a3']) if pid == 'C06' else S(['a1', 'a2']), SignerSets='all' if pid == 'C06' else 'exact', DenomIds=S(['n1', 'n2']) if pid == 'C12' else S(['n1']),
+                   TokenIds=S(['i1']), ViewDenoms=S(['n1', 'n2']), ViewTokens=S(['i1']), MaxDeliver=3 if q else 4, MaxHeight=2)
+        return dict(mc=mcc, props=props, invs=invs, tour=tourc, sims=[sim(simc, 150 if q else 3000, 60)], mc_timeout=2400)
     if pid == 'C07':
         mcc = burn(MaxDeliver=3 if q else 4, MaxHeight=4 if q else 5)
         simc = burn(Accts=S(['a1', 'a2', 'a3']), Amts=S([0, 1, 7, 1000]), Kinds=S(['bank.Send', 'bank.SendAcct', 'bank.MultiSend', 'vesting.Create']),
